@@ -392,6 +392,30 @@ def run(ctx, p):
             push(con.ac_status_frame(pid=0x48, only=[ac]))
             ei = rig.ac(ac).error_info
             ctx.check(ei is not None and ei.description is None, "error_details", detail="stale error text shown for a new error")
+            # the console supplies the text; then the code changes directly to another one while the console does not answer
+            # the text request (the answer is lost): the previous error's text is not shown for the new code
+            con.silent.discard("error")
+            rec4 = list(rec1)
+            inst.ac_status[ac] = rec4
+            push(con.ac_status_frame(pid=0x49, only=[ac]))
+            ei = rig.ac(ac).error_info
+            ctx.check(ei is not None and ei.description == "ER: FFFE", "error_details", detail="text not taken up: " + repr(ei))
+            con.silent.add("error")
+            rec5 = list(rec3)
+            inst.ac_status[ac] = rec5
+            push(con.ac_status_frame(pid=0x4A, only=[ac]))
+            ei = rig.ac(ac).error_info
+            ctx.check(ei is not None and bool(ei.code == code2) and ei.description in (None, ""), "error_details",
+                      detail="the previous error's text is shown for a new error code: " + repr(ei))
+            # an error text that arrives while the AC reports no error is not shown, and not with the next error either
+            inst.ac_status[ac] = rec2
+            push(con.ac_status_frame(pid=0x4C, only=[ac]))
+            push(con.error_frame(ac, "ER: LATE", pid=0x4F))
+            ctx.check(rig.ac(ac).error_info is None, "error_details", detail="error details shown without an error code (late text)")
+            inst.ac_status[ac] = rec
+            push(con.ac_status_frame(pid=0x50, only=[ac]))
+            ei = rig.ac(ac).error_info
+            ctx.check(ei is not None and ei.description in (None, ""), "error_details", detail="a text received while there was no error is shown for a later error: " + repr(ei))
             ctx.check(len(rig.net.conns) == n_conn and not rig.task_failures(), "frame_accepted")
         elif kind == "noncontiguous":
             A = api()
